@@ -120,3 +120,24 @@ func atomicType(t string) types.Type {
 	}
 	return types.Typ[types.UnsafePointer]
 }
+
+func init() {
+	// sync.Cond: no harness waits on one; wake-ups are no-ops
+	nop := func(fr *frame, args []value) value { return nil }
+	externals["(*sync.Cond).Broadcast"] = nop
+	externals["(*sync.Cond).Signal"] = nop
+	externals["(*sync.Cond).Wait"] = func(fr *frame, args []value) value {
+		panic("sync.Cond.Wait is not modelled")
+	}
+}
+
+func init() {
+	externals["internal/bytealg.MakeNoZero"] = func(fr *frame, args []value) value {
+		n := int(asInt64(args[0]))
+		b := make([]value, n)
+		for i := range b {
+			b[i] = byte(0)
+		}
+		return b
+	}
+}
